@@ -57,16 +57,27 @@ func init() {
 	r("UFBool", func(in *Interp, fn *ssa.Function, args []Value, site ssa.Value) Value {
 		fam := in.concStr(args[0], "UF family")
 		va := args[1].(SliceV)
-		var targs []*Term
+		var bs [][]*Term
 		shape := fam
 		for i := 0; i < va.len; i++ {
 			b := bytesOf(in, va.base.s[va.off+i])
 			shape += "_" + itoa(len(b))
-			if len(b) > 0 {
-				targs = append(targs, in.concatBytes(b))
+			bs = append(bs, b)
+		}
+		key := "ufp!" + shape
+		for _, p := range in.ufApps[key] {
+			if sameArgs(p.args, bs) {
+				return p.resBool
 			}
 		}
-		return in.tt.UF("ufp!"+shape, 0, targs...)
+		// Ackermann encoding of the predicate: fresh boolean + pairwise congruence
+		in.nufapp++
+		app := &ufApp{fam: key, shape: shape, args: bs, resBool: in.tt.Var(key+"!"+itoa(in.nufapp), 0)}
+		for _, p := range in.ufApps[key] {
+			in.addAxiom(in.tt.Implies(in.argsEq(p.args, bs), in.tt.Eq(p.resBool, app.resBool)))
+		}
+		in.ufApps[key] = append(in.ufApps[key], app)
+		return app.resBool
 	})
 	r("Axiom", func(in *Interp, fn *ssa.Function, args []Value, site ssa.Value) Value {
 		in.addAxiom(args[0].(*Term))
@@ -260,6 +271,13 @@ func init() {
 		for _, o := range in.opens {
 			if sameArgs([][]*Term{o.key, o.nonce, o.ad, o.ct}, [][]*Term{key, nonce, ad, ct}) {
 				return TupleV{in.bytesToSlice(o.pt), o.ok}
+			}
+		}
+		// correctness of the AEAD: opening exactly what was sealed (syntactically the same key,
+		// nonce, AD and ciphertext terms) yields the sealed plaintext
+		for _, s := range in.seals {
+			if sameArgs([][]*Term{s.key, s.nonce, s.ad, s.ct}, [][]*Term{key, nonce, ad, ct}) {
+				return TupleV{in.bytesToSlice(s.pt), in.tt.True}
 			}
 		}
 		in.nverify++
